@@ -120,6 +120,14 @@ def factory_specs(tier: str) -> list[dict]:
                                  masses=(3.0, 0.0, 0.14, 0.14))
         spec["outer"]["2"] = spec["outer"]["1"]
         specs.append(spec)
+    # --- three identical spin-0 final-state particles (eta -> 3 pi0-like)
+    for formalism in ("helicity", "canonical-helicity"):
+        spec = R.three_body_spec(1, 0, 0, 0, [(0, R.P("R1", 1, 1.2, -1), False, False)],
+                                 parities=(-1, -1, -1, -1), formalism=formalism,
+                                 masses=(3.0, 0.14, 0.14, 0.14))
+        spec["outer"]["1"] = spec["outer"]["0"]
+        spec["outer"]["2"] = spec["outer"]["0"]
+        specs.append(spec)
     # --- three nodes (four-body): cascade and two-resonance topology
     for formalism in ("helicity", "canonical-helicity"):
         for topo in (0, 1):
@@ -139,6 +147,10 @@ def configs(tier: str, formalism: str, heavy: bool = False) -> list[dict]:
     out = [{"couplings": False, "flags": {}, "dyn": "none"}]
     out.append({"couplings": True, "flags": {}, "dyn": "none"})
     out.append({"couplings": False, "flags": {"insert_parent_helicities": True}, "dyn": "bw"})
+    if formalism != "helicity" or tier == "thorough":
+        # L-dependent lineshape (form factor + energy-dependent width) on every resonance
+        # whose decay defines L (canonical: always; helicity: integer-spin resonances)
+        out.append({"couplings": False, "flags": {}, "dyn": "bwff"})
     if tier == "thorough" and not heavy:
         out.append({"couplings": False, "flags": {"insert_child_helicities": False}, "dyn": "none"})
         if formalism != "helicity":
@@ -197,6 +209,17 @@ def configure(builder, cfg, reaction):
     if cfg.get("dyn") == "bw":
         for name in reaction.get_intermediate_particles().names:
             builder.dynamics.assign(name, create_relativistic_breit_wigner)
+    if cfg.get("dyn") == "bwff":
+        from ampform.dynamics.builder import create_relativistic_breit_wigner_with_ff  # noqa: PLC0415
+
+        for p in reaction.get_intermediate_particles():
+            if _ff_defined(reaction, p):
+                builder.dynamics.assign(p.name, create_relativistic_breit_wigner_with_ff)
+
+
+def _ff_defined(reaction, particle) -> bool:
+    """The decay of this resonance defines L: canonical formalism, or integer spin."""
+    return reaction.formalism != "helicity" or float(particle.spin).is_integer()
 
 
 def coefficient_vectors(n: int):
@@ -276,6 +299,9 @@ def eval_case(case):
     viol = []
     counters = {}
     tags_in = []
+    final_names = [p.name for p in reaction.final_state.values()]
+    if any(final_names.count(n) >= 3 for n in final_names):
+        tags_in.append("three-or-more-identical-final-state-particles")
     pools = H.projection_pools(reaction)
     have = {H.outer_tuple(t) for t in reaction.transitions}
     if len(have) < math.prod(len(v) for v in pools.values()):
@@ -283,7 +309,8 @@ def eval_case(case):
     topos = {t.topology for t in reaction.transitions}
 
     def bad(what, msg, **detail):
-        viol.append({"msg": f"{what}: {msg} [{_describe(case)}]", "tags": [what, *tags_in],
+        viol.append({"msg": f"{what}: {msg} [{_describe(case)}]",
+                     "tags": [what, *tags_in, *[f"{what}+{t}" for t in tags_in]],
                      "detail": detail})
 
     coeff_syms = sorted(
@@ -340,8 +367,10 @@ def eval_case(case):
         graphs[idx] = H.permuted_graphs(t)
         for g in graphs[idx]:
             ref_names |= set(H.angle_names(g.topology))
-            if cfg.get("dyn") == "bw":
+            if cfg.get("dyn") in {"bw", "bwff"}:
                 ref_names |= {H.mass_name(g.topology, e) for e in g.topology.intermediate_edge_ids}
+            if cfg.get("dyn") == "bwff":
+                ref_names |= {H.mass_name(g.topology, e) for e in g.topology.outgoing_edge_ids}
     lib_names = {s.name for s in ev.free if s.name not in cnames}
     all_names = sorted(lib_names | ref_names)
     unknown = [n for n in all_names if not n.startswith(("phi", "theta", "m_"))]
@@ -355,8 +384,11 @@ def eval_case(case):
     grid, grid_kind = angle_grid(angle_names, max_two_j, seed)
     G = len(next(iter(grid.values()))) if grid else 1
     values = {n: v[None, :] for n, v in grid.items()}
+    base_by_size = {1: 0.10, 2: 0.80, 3: 1.90, 4: 3.40, 5: 5.00}
     for k, n in enumerate(mass_names):
-        values[n] = ((0.6 + 0.35 * k + 0.2 * irr(seed, 40 + k)) + 0.05 * np.linspace(0, 1, G))[None, :]
+        size = len(n) - 2  # "m_012" -> 3 final-state ids
+        values[n] = ((base_by_size.get(size, 6.0) + 0.03 * k + 0.05 * irr(seed, 40 + k))
+                     + 0.04 * np.linspace(0, 1, G))[None, :]
     cvecs, capped = coefficient_vectors(len(cnames))
     K = len(cvecs)
     cvals = {n: cvecs[:, i][:, None] for i, n in enumerate(cnames)}
@@ -370,15 +402,29 @@ def eval_case(case):
 
     # reference lineshape (BW on resonances, assigned by name)
     def lineshape(t, node):
-        if cfg.get("dyn") != "bw":
+        if cfg.get("dyn") not in {"bw", "bwff"}:
             return 1.0
         topo = t.topology
-        par, _, _ = H.node_edges(topo, node)
+        par, c1, c2 = H.node_edges(topo, node)
         if par in topo.incoming_edge_ids:
             return 1.0
         part = t.states[par].particle
         s = values[H.mass_name(topo, par)][0] ** 2
-        return part.width * part.mass / (part.mass**2 - s - 1j * part.width * part.mass)
+        if cfg.get("dyn") == "bw":
+            return part.width * part.mass / (part.mass**2 - s - 1j * part.width * part.mass)
+        if not _ff_defined(reaction, part):
+            return 1.0
+        from vp.ref import dyn as refdyn  # noqa: PLC0415
+
+        ell = t.interactions[node].l_magnitude
+        if ell is None:
+            ell = int(part.spin)  # documented fallback when the transition has no L
+        m1 = np.broadcast_to(values[H.mass_name(topo, c1)][0], s.shape)
+        m2 = np.broadcast_to(values[H.mass_name(topo, c2)][0], s.shape)
+        return np.array([
+            complex(refdyn.breit_wigner_energy_dependent(float(si), part.mass, part.width, float(a), float(b),
+                                                         int(ell), 1.0, "PhaseSpaceFactor", True))
+            for si, a, b in zip(s, m1, m2)])
 
     ang1 = dict(grid)
     n_eval = 0
@@ -407,7 +453,7 @@ def eval_case(case):
                 break
         if sign is None:
             feats = []
-            if len(refs) > 1 and cfg.get("dyn") == "bw":
+            if len(refs) > 1 and cfg.get("dyn") in {"bw", "bwff"}:
                 feats.append("symmetrised-chain-with-dynamics")
             viol.append({
                 "msg": f"chain-amplitude: {name} is not +-(reference product) for any permutation image;"
